@@ -42,6 +42,13 @@ def one(key, tier, seed, checks, workers):
         assert r.returncode == 0, r.stderr
         r = sh(f"git apply {os.path.join(dst, 'patch.diff')}", cwd=wt)
         if r.returncode != 0:
+            # the patch was written against an earlier HEAD (before a later fix: commit touched the
+            # same file): merge it
+            r = sh(f"git apply --3way {os.path.join(dst, 'patch.diff')}", cwd=wt)
+            if r.returncode == 0 and sh("git diff --name-only --diff-filter=U", cwd=wt).stdout.strip():
+                r.returncode = 1
+                r.stderr = "3-way merge left conflicts"
+        if r.returncode != 0:
             return key, {t: {"verdict": "patch-does-not-apply", "signature": r.stderr[-200:], "seconds": 0} for t in targets}
         os.makedirs(vf)
         r = sh(f"git -C {ROOT} archive HEAD | tar -x -C {vf}")
